@@ -563,7 +563,7 @@ pub fn run(ctx: &Ctx, rep: &mut Report) {
     rep.prop(
         "messages",
         "proptest: 60 arbitrary halfwords (alarm-code slots drawn from zeros, duplicates, valid codes and codes > 800), decoded directly and inside a frame: per-halfword layout, alarm list, scaled values; non-trivial = >= 3 non-zero alarm codes",
-        ctx.tier.pick(300_000, 40_000_000),
+        ctx.tier.pick(1_500_000, 40_000_000),
         || {
             let alarm = prop_oneof![3 => Just(0u16), 4 => 1u16..=800, 1 => 801u16..=65535, 1 => Just(345u16)];
             (crate::gen::rda(), vec(alarm, 14), crate::gen::filler(), crate::gen::msg_header(2, None)).prop_map(|(mut rda, alarms, filler, header)| {
